@@ -234,6 +234,8 @@ class World(object):
         self.steps = 0
         self.conns = []
         self.scheduler = scheduler
+        if scheduler is not None:
+            scheduler.clock = self.clock
         self._saved = []
 
     def step(self):
@@ -262,6 +264,11 @@ class World(object):
         self.step()
         self.yield_point('connect')
         s = FakeSerial(self, **kw)
+        # a serial line is one physical medium: what the peer sends later arrives on whatever handle is open then
+        for old in reversed(self.conns):
+            if isinstance(old, FakeSerial):
+                s.pending, old.pending = old.pending, []
+                break
         self.conns.append(s)
         self.log.append(('connect', self.current()))
         self.peer.on_connect(s)
